@@ -132,7 +132,7 @@ def r6_2(cx):
             # on the true edge, before the paths merge, state := SkipRecord
             for pos, st in fn.statements():
                 if st['k'] == 'assign' and st['rv']['k'] == 'agg' and st['rv']['variant'] == 'SkipRecord' and pos.bb in fn.reachable(t, cut_blocks=[b]) \
-                        and pos.bb not in fn.reachable(be[0], cut_blocks=[b, pos.bb]):
+                        and pos.bb != be[0] and pos.bb not in fn.reachable(be[0], cut_blocks=[b]):
                     err_ok = True
     cx.check(err_ok, 'decode-error-skips', fn, d.loc(), 'decode_anchored(..).is_err() is branched on and sets state := SkipRecord',
              fail_detail='a decode error does not move the record to SkipRecord')
